@@ -409,19 +409,23 @@ def pageCalls (L : List AggType) (b : Buf) (lo hi tLo tHi g0 qs ratio : Nat) : L
     | none => []) ++
   [dsCall L (fun slot => if b.hasData then curValue b slot else none) lo hi tLo tHi g0 qs ratio]
 
-/-- the `DownSampling` calls of one memory database for the series of a group.
-`memoryDatabase.Filter` answers nothing when the metric has no time range for this memory
-database or it does not overlap the query range. -/
-def memCalls (s : Shard) (q : Query) (L : List AggType) (md : MemDB) (fam : Nat) (group : List Nat) : List Arrays :=
-  match familyTarget q fam, Map.lookup s.ranges md.created with
+/-- the `DownSampling` calls of the pages of one memory database (metric-level slot range `rng`)
+for the series of a group. `memoryDatabase.Filter` answers nothing when the metric has no time
+range for this memory database or it does not overlap the query range. -/
+def memCallsR (q : Query) (L : List AggType) (pages : List (PageKey × Buf)) (rng : Option (Nat × Nat))
+    (fam : Nat) (group : List Nat) : List Arrays :=
+  match familyTarget q fam, rng with
   | some (tLo, tHi), some (lo, hi) =>
     if overlap lo hi tLo tHi then
       group.flatMap (fun ser =>
-        match Map.lookup md.pages (ser, q.field) with
+        match Map.lookup pages (ser, q.field) with
         | none => []
         | some b => pageCalls L b lo hi tLo tHi (fam * q.spf) q.qs q.ratio)
     else []
   | _, _ => []
+
+def memCalls (s : Shard) (q : Query) (L : List AggType) (md : MemDB) (fam : Nat) (group : List Nat) : List Arrays :=
+  memCallsR q L md.pages (Map.lookup s.ranges md.created) fam group
 
 /-- the parts of a leaf query that decide which sources answer: all selected fields and all
 series that satisfy the tag condition (`SeriesIDsAfterFiltering`). -/
@@ -466,15 +470,19 @@ def blockMatches (sc : Scope) (blk : Block) : Bool :=
 
 /-- `memoryDatabase.Filter` + `filter`: `none` = error (field / series not found),
 `some false` = no result set, `some true` = a result set. -/
-def memFilter (s : Shard) (q : Query) (sc : Scope) (md : MemDB) (fam : Nat) : Option Bool :=
-  match familyTarget q fam, Map.lookup s.ranges md.created with
+def memFilterR (known : List Nat) (q : Query) (sc : Scope) (pages : List (PageKey × Buf))
+    (rng : Option (Nat × Nat)) (fam : Nat) : Option Bool :=
+  match familyTarget q fam, rng with
   | some (tLo, tHi), some (lo, hi) =>
     if overlap lo hi tLo tHi then
-      if !(sc.fields.any (fun f => md.pages.any (fun (p : PageKey × Buf) => p.1.2 = f))) then none
-      else if !(sc.series.any (fun ser => s.known.contains ser)) then none
+      if !(sc.fields.any (fun f => pages.any (fun (p : PageKey × Buf) => p.1.2 = f))) then none
+      else if !(sc.series.any (fun ser => known.contains ser)) then none
       else some true
     else some false
   | _, _ => some false
+
+def memFilter (s : Shard) (q : Query) (sc : Scope) (md : MemDB) (fam : Nat) : Option Bool :=
+  memFilterR s.known q sc md.pages (Map.lookup s.ranges md.created) fam
 
 /-- the memory part of `dataFamily.Filter`. A not-found error of the memory database means "no
 result set from this source"; before fix 636394b it failed the whole family (`none`). -/
@@ -509,6 +517,51 @@ def familyCalls (s : Shard) (q : Query) (sc : Scope) (L : List AggType) (fam : N
   | none => []
   | some mem =>
     combineCalls s.cfg.notFoundIgnored sc mem (familyReaders s q fam) (fun blk => fileCalls s q sc L blk fam group)
+
+/-! ### a flush in progress
+
+`dataFamily.Flush` switches the mutable memory database to `immutableMemDB` (under the family
+mutex), writes it to a new file outside the mutex, and only then drops it. Writes that complete
+in between create a new mutable memory database; a query in between reads the new mutable one, the
+immutable one and the files (`memoryFilter`: mutable, then immutable). The window state is
+represented by the shard as it will be once the file is committed (`s`, whose family `fam` has the
+new block as its LAST level-0 file) together with the memory database that is still being written
+(`imm`) and its metric-level slot range: the query reads `imm` INSTEAD of that last file. -/
+
+structure Window where
+  fam : Nat
+  imm : MemDB
+  rng : Option (Nat × Nat)
+  deriving Repr
+
+/-- the immutable memory database's result sets (same rules as `memResult`). -/
+def immResult (s : Shard) (q : Query) (sc : Scope) (L : List AggType) (W : Window) (group : List Nat) :
+    Option (List Arrays) :=
+  match memFilterR s.known q sc W.imm.pages W.rng W.fam with
+  | none => if s.cfg.notFoundIgnored then some [] else none
+  | some true => some (memCallsR q L W.imm.pages W.rng W.fam group)
+  | some false => some []
+
+/-- the committed files of the family while the flush is in progress: all readers except the
+file being written. -/
+def windowReaders (s : Shard) (q : Query) (fam : Nat) : List Block :=
+  let f := s.family fam
+  match familyTarget q fam with
+  | some (tLo, tHi) =>
+    ({ f with files := f.files.dropLast } : Family).readers.filter (fun (blk : Block) => overlap blk.lo blk.hi tLo tHi)
+  | none => []
+
+def familyCallsW (s : Shard) (q : Query) (sc : Scope) (L : List AggType) (W : Window) (group : List Nat) : List Arrays :=
+  match memResult s q sc L W.fam group, immResult s q sc L W group with
+  | some mem, some imm =>
+    combineCalls s.cfg.notFoundIgnored sc (mem ++ imm) (windowReaders s q W.fam)
+      (fun blk => fileCalls s q sc L blk W.fam group)
+  | _, _ => []
+
+/-- leaf result arrays of one group while family `W.fam` is being flushed. -/
+def leafGroupW (s : Shard) (q : Query) (sc : Scope) (L : List AggType) (W : Window) (fams group : List Nat) : Arrays :=
+  (fams.flatMap (fun fam => if fam = W.fam then familyCallsW s q sc L W group else familyCalls s q sc L fam group)).foldl
+    (if s.cfg.aggregateByType then reduceInto else reduceIntoOld) (Arrays.init L)
 
 /-- leaf result arrays of one group: all calls of all families (ascending), reduced. -/
 def leafGroup (s : Shard) (q : Query) (sc : Scope) (L : List AggType) (fams group : List Nat) : Arrays :=
